@@ -31,7 +31,7 @@ func (r *Rand) Intn(n int) int {
 	}
 	return int(r.U64() % uint64(n))
 }
-func (r *Rand) Bool() bool       { return r.U64()&1 == 1 }
+func (r *Rand) Bool() bool        { return r.U64()&1 == 1 }
 func (r *Rand) Chance(p int) bool { return r.Intn(100) < p }
 
 // Sub derives an independent stream from a name.
@@ -103,6 +103,10 @@ type Ctx struct {
 	incon   []string
 	out     string
 	start   time.Time
+
+	// MuteViolations makes Violate only count (used when a workload of another
+	// property is reused purely as a race-detector workload).
+	MuteViolations bool
 }
 
 func newCtx(id, tier, phase, out string, seed int64) *Ctx {
@@ -179,6 +183,10 @@ func (c *Ctx) Note(k string, v any) {
 
 // Violate records a violation; at most 3 details are kept per key.
 func (c *Ctx) Violate(key, what string, detail any) {
+	if c.MuteViolations {
+		c.Count("functional_violations_not_judged_here", 1)
+		return
+	}
 	c.mu.Lock()
 	c.vkeys[key]++
 	if c.vkeys[key] <= 2 {
@@ -270,7 +278,7 @@ type Check struct {
 	Phases    func(tier string, seed int64) []Phase
 	// MinObserved lists counters that must be > 0 for the run to count as
 	// having observed anything (otherwise inconclusive).
-	MinObserved []string
+	MinObserved     []string
 	RaceIsViolation bool
 }
 
